@@ -7,8 +7,8 @@ package brain
 //@ pred wf_server(s) = s != nil && s.backend != nil && s.peers != nil && s.metricCli != nil
 
 //@ func (*Server).checkLeaderWrite() (err)
-//@   props C18
-//@   nosafety
+//@   props C18 C20
+//@   nosafety C18
 //@   requires wf_server(s) && !leader_checked
 //@   modifies ghost.leader_checked
 //@   ensures [leader-or-error] err == nil ==> leader_checked
@@ -16,70 +16,70 @@ package brain
 // every write handler: no backend write unless the leader check passed; a follower answers with
 // an error and touches nothing
 //@ func (*Server).Create(ctx, createRequest) (resp, err)
-//@   props C18
-//@   nosafety
+//@   props C18 C20
+//@   nosafety C18
 //@   requires wf_server(s) && createRequest != nil && !leader_checked
 //@   modifies ghost.leader_checked ghost.backend_writes
 //@   ensures [follower-writes-nothing] !leader_checked ==> backend_writes == old(backend_writes)
 //@ func (*Server).Update(ctx, updateRequest) (resp, err)
-//@   props C18
-//@   nosafety
+//@   props C18 C20
+//@   nosafety C18
 //@   requires wf_server(s) && updateRequest != nil && !leader_checked
 //@   modifies ghost.leader_checked ghost.backend_writes
 //@   ensures [follower-writes-nothing] !leader_checked ==> backend_writes == old(backend_writes)
 //@ func (*Server).Delete(ctx, deleteRequest) (resp, err)
-//@   props C18
-//@   nosafety
+//@   props C18 C20
+//@   nosafety C18
 //@   requires wf_server(s) && deleteRequest != nil && !leader_checked
 //@   modifies ghost.leader_checked ghost.backend_writes
 //@   ensures [follower-writes-nothing] !leader_checked ==> backend_writes == old(backend_writes)
 //@ func (*Server).Compact(ctx, compactRequest) (resp, err)
-//@   props C18
-//@   nosafety
+//@   props C18 C20
+//@   nosafety C18
 //@   requires wf_server(s) && compactRequest != nil && !leader_checked
 //@   modifies ghost.leader_checked ghost.backend_writes
 //@   ensures [follower-writes-nothing] !leader_checked ==> backend_writes == old(backend_writes)
 //@ func (*Server).Watch(r, server) (err)
-//@   props C18
-//@   nosafety
+//@   props C18 C20
+//@   nosafety C18
 //@   requires wf_server(s) && r != nil && server != nil && !leader_checked
 //@   modifies ghost.leader_checked ghost.backend_writes
 //@   ensures [follower-serves-no-watch] !leader_checked ==> backend_writes == old(backend_writes)
 //@ func (*Server).compactLoop()
-//@   props C18
-//@   nosafety
+//@   props C18 C20
+//@   nosafety C18
 //@   requires wf_server(s) && !leader_checked
 //@   modifies ghost.leader_checked ghost.backend_writes
 
 // every read handler: the backend is read only after the leader's revision has been adopted;
 // a failed sync is returned as an error without touching the backend
 //@ func (*Server).Get(ctx, r) (resp, err)
-//@   props C18
-//@   nosafety
+//@   props C18 C20
+//@   nosafety C18
 //@   requires wf_server(s) && r != nil && !synced
 //@   modifies ghost.synced ghost.backend_reads
 //@   ensures [failed-sync-reads-nothing] !synced ==> backend_reads == old(backend_reads)
 //@ func (*Server).Range(ctx, r) (resp, err)
-//@   props C18
-//@   nosafety
+//@   props C18 C20
+//@   nosafety C18
 //@   requires wf_server(s) && r != nil && !synced
 //@   modifies ghost.synced ghost.backend_reads
 //@   ensures [failed-sync-reads-nothing] !synced ==> backend_reads == old(backend_reads)
 //@ func (*Server).Count(ctx, r) (resp, err)
-//@   props C18
-//@   nosafety
+//@   props C18 C20
+//@   nosafety C18
 //@   requires wf_server(s) && r != nil && !synced
 //@   modifies ghost.synced ghost.backend_reads
 //@   ensures [failed-sync-reads-nothing] !synced ==> backend_reads == old(backend_reads)
 //@ func (*Server).ListPartition(ctx, r) (resp, err)
-//@   props C18
-//@   nosafety
+//@   props C18 C20
+//@   nosafety C18
 //@   requires wf_server(s) && r != nil && !synced
 //@   modifies ghost.synced ghost.backend_reads
 //@   ensures [failed-sync-reads-nothing] !synced ==> backend_reads == old(backend_reads)
 //@ func (*Server).RangeStream(r, server) (err)
-//@   props C18
-//@   nosafety
+//@   props C18 C20
+//@   nosafety C18
 //@   requires wf_server(s) && r != nil && server != nil && !synced
 //@   modifies ghost.synced ghost.backend_reads
 //@   ensures [failed-sync-reads-nothing] !synced ==> backend_reads == old(backend_reads)
